@@ -8,8 +8,10 @@
    options or explicit size widths, unknown size by option) into a destination that accepts everything emits exactly that
    encoding, every call succeeds, and the strict reader yields the written tags.
    Masters given as Full items (third part): the same, with one write call per top-level item.
-   PARTIAL: declared paths without global placeholders; raw tags are covered by the correspondence check only. *)
-From Ebml Require Import Base Tools Spec Writer Reader Pure Encode Proofs.Tactics Proofs.ReaderIO Proofs.Refine Proofs.PureProofs Proofs.RollUp Proofs.RoundTrip Proofs.WriteEnc Proofs.WriteFull.
+   PARTIAL: declared paths without global placeholders; raw tags are covered by the correspondence check only.
+   Reader half, second class (last part of this file, Proofs/RoundTripKnown.v): documents in which every master has a known
+   size, declared paths with global placeholders allowed (global elements, recursive masters). *)
+From Ebml Require Import Base Tools Spec Writer Reader Pure Encode Proofs.Tactics Proofs.ReaderIO Proofs.Refine Proofs.PureProofs Proofs.RollUp Proofs.RoundTrip Proofs.RoundTripKnown Proofs.WriteEnc Proofs.WriteFull.
 
 (* every conforming document — any nesting depth, any payloads, any size widths, any subset of masters of unknown size — is
    read back as exactly its items (masters as Start/End pairs, offsets of the first byte of each element), then None *)
@@ -137,3 +139,130 @@ Example C01_ex_full :
   map out_tag (p_run C01_cfg (snd (run_writer C01_sp (fops true [t]) [])) [RAll]) =
     [Some (TStart 129); Some (TStart 16643); Some (TElem 16642 (VB [7])); Some (TEnd 16643); Some (TElem 16641 (VU 5)); Some (TEnd 129); None].
 Proof. vm_compute. repeat split; reflexivity. Qed.
+
+(* ------------------------------------------------------------------ reader half, known sizes, global placeholders allowed *)
+(* PARTIAL, complementary class: EVERY master of the document has a known size, and elements and masters may be declared
+   with ARBITRARY paths, global placeholders included (global elements such as Void / Crc32, recursive masters).
+   [kconf c ids t] is [conf c ids t] with "every master has sz = Some _" and, in place of "declared path = the chain",
+   the reader's own notion of conformance: the declared path MATCHES the chain of masters the element sits in
+   ([path_matches (get_path (c_sp c) id) ids = true], i.e. [Matches] of Proofs/SpecProofs.v).
+   With known sizes masters are closed by exhaustion only, so placeholders create no ambiguity (unknown-size masters below
+   global elements are inherently ambiguous, see Props/C07.v, and stay excluded).
+   [dstart c f] — needed, see C01_ex_known_needs_dstart below: the first element of the document whose declared path is
+   placeholder-free is a top-level element (so its path is the empty one): [f = g1 .. gk :: r :: ...] where no element
+   inside g1 .. gk has a placeholder-free path ([globb]) and r is declared with the empty path (or there is no r).
+   In particular every document whose first top-level element is a root element ([starts_at_root]).
+   The reader validates nothing until it meets the first placeholder-free path, and then seeds the parents that path names
+   below the masters already open; met inside an open master, the parents are there twice and the element is rejected. *)
+Theorem C01_reader_roundtrip_known_partial : forall c f, strict c -> c_buffered c = [] -> c_emit_eof c = true ->
+  Forall (kconf c []) f -> dstart c f -> p_run c (enc_forest f) [RAll] = items_forest 0 f ++ [ONone].
+Proof. exact reader_roundtrip_known. Qed.
+
+Theorem C01_reader_roundtrip_known_root_partial : forall c f, strict c -> c_buffered c = [] -> c_emit_eof c = true ->
+  Forall (kconf c []) f -> starts_at_root c f -> p_run c (enc_forest f) [RAll] = items_forest 0 f ++ [ONone].
+Proof. exact reader_roundtrip_known_root. Qed.
+
+Theorem C01_reader_roundtrip_known_buffered_partial : forall c f cap0 script, calm script -> strict c -> c_buffered c = [] ->
+  c_emit_eof c = true -> Forall (kconf c []) f -> dstart c f ->
+  run_reader c cap0 script (enc_forest f) [RAll] = items_forest 0 f ++ [ONone].
+Proof. exact reader_roundtrip_known_buffered. Qed.
+
+Theorem C01_reader_roundtrip_known_tags_partial : forall c f, strict c -> c_buffered c = [] -> c_emit_eof c = true ->
+  Forall (kconf c []) f -> dstart c f -> map out_tag (p_run c (enc_forest f) [RAll]) = map Some (tags_forest f) ++ [None].
+Proof. exact reader_roundtrip_known_tags. Qed.
+
+(* the known-size documents of the first class belong to the second one *)
+Theorem C01_known_class_extends : forall c f, Forall (conf c []) f -> Forall all_known f -> Forall (kconf c []) f /\ dstart c f.
+Proof.
+  intros c f Hc Hk. split.
+  - rewrite Forall_forall in *. intros t Hin. apply conf_kconf; [apply Hc, Hin|apply Hk, Hin].
+  - apply starts_at_root_dstart, conf_starts_at_root, Hc.
+Qed.
+
+(* Root(129) > Seg(130) > Val(16641); Void(236) is global with at least one parent "(1-)"; Rec(131) is a recursive master
+   declared Root/(-)/Rec with a Leaf(16642) declared Root/(-)/Rec/Leaf; Top(132) is a global master "(-)" *)
+Definition C01k_sp : spec :=
+  [ {| e_id := 129; e_ty := DMaster; e_path := [] |}; {| e_id := 130; e_ty := DMaster; e_path := [PId 129] |};
+    {| e_id := 16641; e_ty := DUInt; e_path := [PId 129; PId 130] |};
+    {| e_id := 236; e_ty := DBinary; e_path := [PGlobal (Some 1) None] |};
+    {| e_id := 131; e_ty := DMaster; e_path := [PId 129; PGlobal None None] |};
+    {| e_id := 16642; e_ty := DBinary; e_path := [PId 129; PGlobal None None; PId 131] |};
+    {| e_id := 132; e_ty := DMaster; e_path := [PGlobal None None] |};
+    {| e_id := 16643; e_ty := DBinary; e_path := [PId 132] |} ].
+Definition C01k_cfg : cfg :=
+  {| c_sp := C01k_sp; c_allow_id := false; c_allow_hier := false; c_allow_over := false; c_max := Some 4000000000; c_buffered := [];
+     c_emit_eof := true |}.
+Definition C01k_void : rtree := RLeaf 236 (VB [0]) [0] 1%nat.
+Definition C01k_leaf : rtree := RLeaf 16642 (VB [7]) [7] 2%nat.
+(* Top { Void } Root { Void Seg { Val 5 Void Rec { Leaf } } Rec { Leaf Rec { Void Leaf } Void } Void } Root { } *)
+Definition C01k_doc : list rtree :=
+  [ RNode 132 (Some 1%nat) [ C01k_void ];
+    RNode 129 (Some 2%nat)
+      [ C01k_void;
+        RNode 130 (Some 1%nat) [ RLeaf 16641 (VU 5) [0; 5] 1%nat; C01k_void; RNode 131 (Some 1%nat) [ C01k_leaf ] ];
+        RNode 131 (Some 3%nat) [ C01k_leaf; RNode 131 (Some 1%nat) [ C01k_void; C01k_leaf ]; C01k_void ];
+        C01k_void ];
+    RNode 129 (Some 1%nat) [] ].
+
+Example C01_ex_known_conf : strict C01k_cfg /\ Forall (kconf C01k_cfg []) C01k_doc /\ dstart C01k_cfg C01k_doc.
+Proof.
+  assert (I1 : idok 129) by (exists 1%nat, 1; repeat split; cbn; lia).
+  assert (I2 : idok 130) by (exists 1%nat, 2; repeat split; cbn; lia).
+  assert (I3 : idok 131) by (exists 1%nat, 3; repeat split; cbn; lia).
+  assert (I4 : idok 132) by (exists 1%nat, 4; repeat split; cbn; lia).
+  assert (I5 : idok 236) by (exists 1%nat, 108; repeat split; cbn; lia).
+  assert (I6 : idok 16641) by (exists 2%nat, 257; repeat split; cbn; lia).
+  assert (I7 : idok 16642) by (exists 2%nat, 258; repeat split; cbn; lia).
+  assert (V : forall ids, path_matches [PGlobal (Some 1) None] ids = true -> kconf C01k_cfg ids C01k_void).
+  { intros ids Hp. cbn [kconf C01k_void]. split; [exact I5|]. split; [lia|]. split; [cbn; lia|]. split; [repeat constructor; lia|].
+    split; [exists DBinary; split; [reflexivity|split; [discriminate|reflexivity]]|]. split; [exact Hp|vm_compute; discriminate]. }
+  assert (L : forall ids, path_matches [PId 129; PGlobal None None; PId 131] ids = true -> kconf C01k_cfg ids C01k_leaf).
+  { intros ids Hp. cbn [kconf C01k_leaf]. split; [exact I7|]. split; [lia|]. split; [cbn; lia|]. split; [repeat constructor; lia|].
+    split; [exists DBinary; split; [reflexivity|split; [discriminate|reflexivity]]|]. split; [exact Hp|vm_compute; discriminate]. }
+  assert (N : forall ids id sl cs, idok id -> (1 <= sl <= 8)%nat -> flen cs < 2 ^ (7 * N.of_nat sl) - 1 ->
+            get_type C01k_sp id = Some DMaster -> path_matches (get_path C01k_sp id) ids = true -> flen cs <= 4000000000 ->
+            Forall (kconf C01k_cfg (ids ++ [id])) cs -> kconf C01k_cfg ids (RNode id (Some sl) cs)).
+  { intros ids id sl cs H1 H2 H3 H4 H5 H6 H7. apply kconf_node. split; [exact H1|]. split; [exists sl; split; [reflexivity|split; assumption]|].
+    split; [exact H4|]. split; [exact H5|]. split; [exact H6|exact H7]. }
+  split; [repeat split|]. split.
+  - constructor; [|constructor; [|constructor; [|constructor]]].
+    + apply N; [assumption|lia|vm_compute; reflexivity|reflexivity|reflexivity|vm_compute; discriminate|].
+      constructor; [apply V; reflexivity|constructor].
+    + apply N; [assumption|lia|vm_compute; reflexivity|reflexivity|reflexivity|vm_compute; discriminate|].
+      constructor; [apply V; reflexivity|]. constructor; [|constructor; [|constructor; [apply V; reflexivity|constructor]]].
+      * apply N; [assumption|lia|vm_compute; reflexivity|reflexivity|reflexivity|vm_compute; discriminate|].
+        constructor; [|constructor; [apply V; reflexivity|constructor; [|constructor]]].
+        -- cbn [kconf]. split; [exact I6|]. split; [lia|]. split; [cbn; lia|]. split; [repeat constructor; lia|].
+           split; [exists DUInt; split; [reflexivity|split; [discriminate|reflexivity]]|]. split; [reflexivity|vm_compute; discriminate].
+        -- apply N; [assumption|lia|vm_compute; reflexivity|reflexivity|reflexivity|vm_compute; discriminate|].
+           constructor; [apply L; reflexivity|constructor].
+      * apply N; [assumption|lia|vm_compute; reflexivity|reflexivity|reflexivity|vm_compute; discriminate|].
+        constructor; [apply L; reflexivity|]. constructor; [|constructor; [apply V; reflexivity|constructor]].
+        apply N; [assumption|lia|vm_compute; reflexivity|reflexivity|reflexivity|vm_compute; discriminate|].
+        constructor; [apply V; reflexivity|constructor; [apply L; reflexivity|constructor]].
+    + apply N; [assumption|lia|vm_compute; reflexivity|reflexivity|reflexivity|vm_compute; discriminate|]. constructor.
+  - cbn [dstart C01k_doc]. right. split; [reflexivity|]. left. reflexivity.
+Qed.
+
+(* global elements at depths 1, 2 and 3, a recursive master nested in itself and below a named master, a global master
+   before the first root: the document is read back as exactly its items *)
+Example C01_ex_known_run :
+  p_run C01k_cfg (enc_forest C01k_doc) [RAll] = items_forest 0 C01k_doc ++ [ONone] /\
+  map out_tag (p_run C01k_cfg (enc_forest C01k_doc) [RAll]) =
+    [Some (TStart 132); Some (TElem 236 (VB [0])); Some (TEnd 132);
+     Some (TStart 129); Some (TElem 236 (VB [0]));
+     Some (TStart 130); Some (TElem 16641 (VU 5)); Some (TElem 236 (VB [0])); Some (TStart 131); Some (TElem 16642 (VB [7])); Some (TEnd 131);
+     Some (TEnd 130);
+     Some (TStart 131); Some (TElem 16642 (VB [7])); Some (TStart 131); Some (TElem 236 (VB [0])); Some (TElem 16642 (VB [7])); Some (TEnd 131);
+     Some (TElem 236 (VB [0])); Some (TEnd 131);
+     Some (TElem 236 (VB [0])); Some (TEnd 129); Some (TStart 129); Some (TEnd 129); None].
+Proof. vm_compute. split; reflexivity. Qed.
+
+(* [dstart] cannot be dropped: this document conforms ([kconf]: 16643 is declared Top/16643 and sits in Top) but its first
+   placeholder-free element is met inside the global master Top, before anything determined the position: the reader seeds
+   Top a second time below the open Top and reports a hierarchy error.  Preceded by a root element it reads back. *)
+Example C01_ex_known_needs_dstart :
+  let inner := RNode 132 (Some 1%nat) [ RLeaf 16643 (VB [7]) [7] 1%nat ] in
+  p_run C01k_cfg (enc_forest [inner]) [RAll] = [OItem (TStart 132) 0; OErr (RHierarchy 16643 (Some 132))] /\
+  p_run C01k_cfg (enc_forest [RNode 129 (Some 1%nat) []; inner]) [RAll] = items_forest 0 [RNode 129 (Some 1%nat) []; inner] ++ [ONone].
+Proof. vm_compute. split; reflexivity. Qed.
